@@ -152,9 +152,13 @@ def isEndOfStream(substrate):
         yield result
 
     else:
-        received = substrate.read(1)
-        if received is None:
-            yield
+        while True:
+            received = substrate.read(1)
+            if received is None:  # non-blocking stream has no data yet
+                yield error.SubstrateUnderrunError()
+                continue
+
+            break
 
         if received:
             substrate.seek(-1, os.SEEK_CUR)
